@@ -27,7 +27,7 @@ macro_rules! shapes {
     ($mac:ident) => {
         $mac! {
             V4x1 4 1, V4x2 4 2, V4x4 4 4, V5x1 5 1, V6x2 6 2, V6x3 6 3, V8x2 8 2, V8x4 8 4,
-            V9x3 9 3, V12x4 12 4
+            V9x3 9 3, V12x4 12 4, V8x8 8 8, V16x4 16 4, V16x8 16 8
         }
     };
 }
@@ -44,10 +44,14 @@ macro_rules! def_enum {
         /// Assign a vector of the given shape.
         pub fn assign_shape(
             vg: &VectorGadget<F>, l: &mut impl Layouter<F>, m: usize, a: usize, value: Value<Vec<F>>,
+            filler: Option<F>,
         ) -> Result<VecAny, Error> {
             match (m, a) {
                 $(($m, $a) => {
-                    let v: VN<$m, $a> = vg.assign(l, value)?;
+                    let v: VN<$m, $a> = match filler {
+                        None => vg.assign(l, value)?,
+                        Some(f) => vg.assign_with_filler(l, value, Some(f))?,
+                    };
                     Ok(VecAny::$name(v))
                 })*
                 _ => panic!("unsupported vector shape ({m}, {a})"),
@@ -70,6 +74,9 @@ macro_rules! on_vec {
             VecAny::V8x4($x) => $body,
             VecAny::V9x3($x) => $body,
             VecAny::V12x4($x) => $body,
+            VecAny::V8x8($x) => $body,
+            VecAny::V16x4($x) => $body,
+            VecAny::V16x8($x) => $body,
         }
     };
 }
@@ -87,6 +94,9 @@ macro_rules! on_vec2 {
             (VecAny::V8x4($x), VecAny::V8x4($y)) => $body,
             (VecAny::V9x3($x), VecAny::V9x3($y)) => $body,
             (VecAny::V12x4($x), VecAny::V12x4($y)) => $body,
+            (VecAny::V8x8($x), VecAny::V8x8($y)) => $body,
+            (VecAny::V16x4($x), VecAny::V16x4($y)) => $body,
+            (VecAny::V16x8($x), VecAny::V16x8($y)) => $body,
             _ => panic!("vector shapes differ"),
         }
     };
@@ -140,12 +150,14 @@ fn resize(vg: &VectorGadget<F>, l: &mut impl Layouter<F>, v: &VecAny, target: us
         (VecAny::V4x4(x), 12) => VecAny::V12x4(vg.resize::<12>(l, x.clone())?),
         (VecAny::V8x4(x), 12) => VecAny::V12x4(vg.resize::<12>(l, x.clone())?),
         (VecAny::V6x3(x), 9) => VecAny::V9x3(vg.resize::<9>(l, x.clone())?),
+        (VecAny::V8x4(x), 16) => VecAny::V16x4(vg.resize::<16>(l, x.clone())?),
+        (VecAny::V8x8(x), 16) => VecAny::V16x8(vg.resize::<16>(l, x.clone())?),
         _ => panic!("unsupported resize {:?} -> {target}", v.shape()),
     })
 }
 
 pub const RESIZES: &[((usize, usize), usize)] =
-    &[((4, 1), 5), ((4, 2), 6), ((4, 2), 8), ((6, 2), 8), ((4, 4), 8), ((4, 4), 12), ((8, 4), 12), ((6, 3), 9)];
+    &[((4, 1), 5), ((4, 2), 6), ((4, 2), 8), ((6, 2), 8), ((4, 4), 8), ((4, 4), 12), ((8, 4), 12), ((6, 3), 9), ((8, 4), 16), ((8, 8), 16)];
 
 /// Execute a vector operation; returns `false` if `name` is not one.
 #[allow(clippy::too_many_arguments)]
@@ -177,7 +189,18 @@ pub fn exec_vec(
         "vassign" => {
             let (m, a, len) = (n(0), n(1), n(2));
             let data: Vec<F> = (0..len).map(|_| inputs.next().expect("not enough inputs")).collect();
-            let v = assign_shape(vg, l, m, a, Value::known(data))?;
+            let v = assign_shape(vg, l, m, a, Value::known(data), None)?;
+            push_vec(vars, vecs, v);
+        }
+        // vassignf M A n filler : `assign_with_filler` with an explicit filler value
+        "vassignf" => {
+            let (m, a, len) = (n(0), n(1), n(2));
+            let filler = match &args[3] {
+                Arg::C(c) => *c,
+                _ => panic!("vassignf: filler expected"),
+            };
+            let data: Vec<F> = (0..len).map(|_| inputs.next().expect("not enough inputs")).collect();
+            let v = assign_shape(vg, l, m, a, Value::known(data), Some(filler))?;
             push_vec(vars, vecs, v);
         }
         // vresize i M A L
